@@ -55,8 +55,8 @@ theorem barTrace_fm_seg {α : Type} (P : Ev → Option α) (c : Nat) (hP : ∀ e
   have k_s2 : c ≠ 10 → p.s2.1.filterMap P = [] := by rw [← hp]; exact seg (setUpdatedFrom_at cfg ts 0 _ _)
   have k_u : c ≠ 11 → p.u.1.filterMap P = [] := by rw [← hp]; exact seg (runUpdFrom_at sc ts row 0 _ _)
   have k_a : c ≠ 13 → p.a.1.filterMap P = [] := by rw [← hp]; exact seg (runOps_at ts .after _ _)
-  have k9 : (p.a.2.cur.map (fun x => Ev.notify ts x.tag x.stamp x.m)).filterMap P = [] :=
-    fm_nil_of_allAt hP (notifs_at ts p.a.2.cur) (by omega)
+  have k9 : p.nt.1.filterMap P = [] := by
+    rw [← hp]; exact fm_nil_of_allAt hP (runNotify_at sc ts row _ _ _) (by omega)
   have e1 : P (Ev.before ts row p.price) = none := none_of _ (by simp [Ev.phase]; omega)
   have e2 : P (Ev.on ts row p.price) = none := none_of _ (by simp [Ev.phase]; omega)
   have e3 : P (Ev.after ts row p.price) = none := none_of _ (by simp [Ev.phase]; omega)
